@@ -254,12 +254,17 @@ class Ctx:
         os.makedirs(os.path.join(ROOT, 'replays'), exist_ok=True)
         unlisted = []
         seen_known = {}
+        firsts = {}
         for v in self.violations:
             k = match_known(known, v['key'])
             if k is not None:
                 seen_known.setdefault(k['key'], (k, v))
-            else:
+            elif v['key'] not in firsts:
+                firsts[v['key']] = v
+                v['count'] = 1
                 unlisted.append(v)
+            else:
+                firsts[v['key']]['count'] += 1
         for k, v in seen_known.values():
             lines.append(f"KNOWN-FINDING: property={prop} {k['what']}")
         broken = [(n, d) for n, ok, d in self.obligations if not ok]
@@ -267,7 +272,7 @@ class Ctx:
         if unlisted:
             rc = 1
             json.dump({'property': prop, 'seed': self.seed, 'tier': self.tier, 'kind': 'failing-input',
-                       'violations': unlisted[:20], 'broken_obligations': broken[:10], 'mismatches': self.mismatches[:10]},
+                       'violations': unlisted[:60], 'broken_obligations': broken[:10], 'mismatches': self.mismatches[:10]},
                       open(os.path.join(ROOT, replay_path), 'w'), indent=1, default=str)
             lines.append(f'VIOLATION property={prop} replay={replay_path}')
         elif broken or self.mismatches:
